@@ -855,7 +855,7 @@ def r01s(ctx, rep, rule="R01s"):
 
 # procedures a derived form's expansion may call by name, with the reason it cannot do without
 TEMPLATE_PROCS = {
-    "case": {"memv": "membership of the key in a clause's data is a run-time search; case is specified through eqv? (R7RS 4.2.1)"},
+    # (case called memv "because it cannot do without": that was an excuse, not a reason — the call is a known finding now)
 }
 
 
@@ -875,6 +875,7 @@ def r01u(ctx, rep, rule="R01u"):
     user = {"x", "y", "f", "i", "loop", "k", "a", "b", "c"}
     core_kw = {"if", "lambda", "set!", "define", "quote", "quasiquote", "unquote", "no-rule", "λ"}
     n = 0
+    calls = {}
     for nm, text in INSTANCES + [("delay", "(delay %N1)"), ("delay-force", "(delay-force %N1)")]:
         try:
             core = expand(S(text), macros)
@@ -884,9 +885,15 @@ def r01u(ctx, rep, rule="R01u"):
         form = nm.split(" ")[0].split(":")[0]
         allowed = TEMPLATE_PROCS.get(form, {})
         used = sorted(v for v in free_vars(core) if v not in user and v not in core_kw and v not in allowed and v not in PRIVATE_OK)
-        key = "%s|%s" % (rule, nm)
-        (rep.ok if not used else rep.fail)(
-            rule, key, "%s introduces no procedure reference%s" % (nm, (" beyond " + ", ".join(sorted(allowed))) if allowed else "") if not used else
-            "the expansion of %s calls %s by name: where the form is used under a binding of that name — a parameter called %s, say — "
-            "it calls the program's variable instead" % (text, ", ".join(used), used[0]), [path])
+        for v in used:
+            calls.setdefault((form, v), []).append(text)
+        if not used:
+            rep.ok(rule, "%s|%s" % (rule, nm), "%s introduces no procedure reference%s" % (
+                nm, (" beyond " + ", ".join(sorted(allowed))) if allowed else ""))
+    # one finding per (form, procedure), whatever the number of schematic instances that show it
+    for (form, v), texts in sorted(calls.items()):
+        rep.fail(rule, "%s|%s calls %s" % (rule, form, v),
+                 "the expansion of %s calls %s by name (%d schematic instance%s, e.g. %s): where the form is used under a binding of "
+                 "that name — a parameter called %s, say — it calls the program's variable instead" % (
+                     form, v, len(texts), "" if len(texts) == 1 else "s", texts[0], v), [path])
     rep.floor(rule, "schematic instances of derived forms", n, 25)
